@@ -41,16 +41,17 @@ def check_c03(ctx):
     cases = []
     n3 = ["pa", "pb", "pc"]
     L3 = ("none", "pos", "neg")
-    for style in ("plain", "agg", "temporal"):
+    # styles stated / statedfirst / aggstated: every node predicate also has a unit clause, after resp. before its rules
+    for style in ("plain", "agg", "temporal", "stated", "aggstated") + (() if quick else ("statedfirst",)):
         labels = ("none", "pos") if style == "temporal" else L3
         for e in graphs(n3, labels):
-            if style == "agg" and not any(x == "neg" for row in e for x in row):
+            if style.startswith("agg") and not any(x == "neg" for row in e for x in row):
                 continue
             cases.append(dict(nodes=n3, edges=e, style=style))
     exhaustive3 = len(cases)
     for k, nodes in ((4, ["pa", "pb", "pc", "pd"]), (5, ["pa", "pb", "pc", "pd", "pe"])):
         for _ in range(4000 if quick else 60000):
-            style = rnd.choice(("plain", "plain", "agg", "temporal"))
+            style = rnd.choice(("plain", "plain", "agg", "temporal", "stated", "aggstated"))
             labels = ("none", "pos") if style == "temporal" else L3
             cases.append(dict(nodes=nodes, edges=random_graph(rnd, nodes, labels, rnd.choice((0.15, 0.3, 0.5))), style=style))
     for i, c in enumerate(cases):
@@ -69,7 +70,7 @@ def check_c03(ctx):
             orders += 1
         if val["classes"].get(r["id"]) == "stratifiable" and any(x["stage"] == "stratify" for x in r["results"]):
             ctx.nontrivial.add(json.dumps([r["style"], r["nodes"], r["edges"]]))
-    ctx.notes["graphs"] = dict(all_3_node_graphs_in_3_styles=exhaustive3, total=len(cases), repeat=repeat,
+    ctx.notes["graphs"] = dict(all_3_node_graphs_in_all_styles=exhaustive3, total=len(cases), repeat=repeat,
                                graphs_with_more_than_one_distinct_valid_answer=orders,
                                classes={k: sum(1 for v in val["classes"].values() if v == k) for k in set(val["classes"].values())})
     for cid in (0, exhaustive3 - 5, len(cases) - 1):
@@ -99,7 +100,7 @@ def check_c03(ctx):
                         "a program rejected before stratification (e.g. mutual recursion through temporal predicates) is not judged",
                         "Go randomises every map iteration, so repeated calls sample the iteration orders that Stratifier.tla enumerates exhaustively"]
     return ctx.finish("model_checking",
-                      "all 3^9 labelled graphs on 3 predicates in 3 syntactic styles + random graphs on 4 and 5 predicates, analysis.Stratify called repeatedly; every distinct (layers, map, error) answer judged by TLC "
+                      "all 3^9 labelled graphs on 3 predicates in 5 (quick) / 6 syntactic styles (plain negation, aggregation as the negative edge, temporal literals; node predicates with stated facts before / after their rules) + random graphs on 4 and 5 predicates, analysis.Stratify called repeatedly; every distinct (layers, map, error) answer judged by TLC "
                       "against StratMeaning (partition, order, strictness on negative edges, SCC-mates together, failure iff negative cycle); non-trivial = stratifiable graph answered by Stratify; distinct by (style, graph)")
 
 
